@@ -17,7 +17,9 @@ CONSTANTS Idx,        \* indices handed to list operations
           StartIds,   \* which start trees
           Tgt,        \* "root": operate on the root, "kids": on its container children, "both"
           MaxLen,     \* length of the operation sequences
-          UpdShapes   \* argument shapes of update(): sequences of <<name, kind>>
+          UpdShapes,  \* argument shapes of update(): sequences of <<name, kind>>
+          Sim         \* TRUE: every action draws its arguments at random (for -simulate: TLC generates all successors
+                      \* of a state before it picks one, which costs one Apply per operation of the alphabet)
 
 VARIABLES heap, root, hist, nxt, err, fired, st
 vars == <<heap, root, hist, nxt, err, fired, st>>
@@ -74,6 +76,7 @@ Starts == <<
   [root |-> 3000, h |-> S(1) @@ S(2) @@ (3000 :> MkDict(<< <<"a", 1>>, <<"b", 2>> >>))]
 >>
 
+R(X) == IF Sim /\ X # {} THEN {RandomElement(X)} ELSE X
 V(t, n, k) == [t |-> t, n |-> n, k |-> k]
 Op(name, t, i, i2, key, key2, flag, vals) ==
     [op |-> name, t |-> t, tk |-> [j \in DOMAIN t |-> heap[root].k], i |-> i, i2 |-> i2, key |-> key, key2 |-> key2,
@@ -115,34 +118,34 @@ RemovableSpecs(tp) ==
             \E p \in DOMAIN heap[t].py : Matches(heap, heap[t].py[p], vs)} \cup {V("S", 0, "")}
 
 \* ------------------------- one action per public mutator -------------------------
-LSetItem     == \E tp \in LT, i \in Idx, k \in ValKinds : Do(LOp("l.setitem", tp, i, 0, FALSE, <<V(k, nxt, "")>>))
-LDelItem     == \E tp \in LT, i \in Idx : Do(LOp("l.delitem", tp, i, 0, FALSE, <<>>))
-LAppendA     == \E tp \in LT, k \in ValKinds : Do(LOp("l.append", tp, 0, 0, FALSE, <<V(k, nxt, "")>>))
-LInsertA     == \E tp \in LT, i \in Idx, k \in ValKinds : Do(LOp("l.insert", tp, i, 0, FALSE, <<V(k, nxt, "")>>))
-LExtendA     == \E tp \in LT : \/ "l.extend[]" \in OpsOn /\ Do(LOp("l.extend", tp, 0, 0, FALSE, <<>>))
+LSetItem     == \E tp \in R(LT), i \in R(Idx), k \in R(ValKinds) : Do(LOp("l.setitem", tp, i, 0, FALSE, <<V(k, nxt, "")>>))
+LDelItem     == \E tp \in R(LT), i \in R(Idx) : Do(LOp("l.delitem", tp, i, 0, FALSE, <<>>))
+LAppendA     == \E tp \in R(LT), k \in R(ValKinds) : Do(LOp("l.append", tp, 0, 0, FALSE, <<V(k, nxt, "")>>))
+LInsertA     == \E tp \in R(LT), i \in R(Idx), k \in R(ValKinds) : Do(LOp("l.insert", tp, i, 0, FALSE, <<V(k, nxt, "")>>))
+LExtendA     == \E tp \in R(LT) : \/ "l.extend[]" \in OpsOn /\ Do(LOp("l.extend", tp, 0, 0, FALSE, <<>>))
                                \/ Do(LOp("l.extend", tp, 0, 0, FALSE, <<V("S", nxt, ""), V("L", nxt + 1, "")>>))
-LRemoveA     == \E tp \in LT : \E vs \in RemovableSpecs(tp) : Do(LOp("l.remove", tp, 0, 0, FALSE, <<vs>>))
-LPopA        == \E tp \in LT : \/ "l.pop()" \in OpsOn /\ Do(LOp("l.pop", tp, 0, 0, FALSE, <<>>))
-                               \/ \E i \in Idx : Do(LOp("l.pop", tp, i, 0, TRUE, <<>>))
-LClearA      == \E tp \in LT : Do(LOp("l.clear", tp, 0, 0, FALSE, <<>>))
-LSetChild    == \E tp \in LT, i \in Idx, k \in ValKinds : Do(LOp("l.set_child", tp, i, 0, FALSE, <<V(k, nxt, "")>>))
-LRemoveChild == \E tp \in LT, i \in Idx : Do(LOp("l.remove_child", tp, i, 0, FALSE, <<>>))
-LRenameChild == \E tp \in LT, r \in RenPairs : Do(LOp("l.rename_child", tp, r[1], r[2], FALSE, <<>>))
+LRemoveA     == \E tp \in R(LT) : \E vs \in R(RemovableSpecs(tp)) : Do(LOp("l.remove", tp, 0, 0, FALSE, <<vs>>))
+LPopA        == \E tp \in R(LT) : \/ "l.pop()" \in OpsOn /\ Do(LOp("l.pop", tp, 0, 0, FALSE, <<>>))
+                               \/ \E i \in R(Idx) : Do(LOp("l.pop", tp, i, 0, TRUE, <<>>))
+LClearA      == \E tp \in R(LT) : Do(LOp("l.clear", tp, 0, 0, FALSE, <<>>))
+LSetChild    == \E tp \in R(LT), i \in R(Idx), k \in R(ValKinds) : Do(LOp("l.set_child", tp, i, 0, FALSE, <<V(k, nxt, "")>>))
+LRemoveChild == \E tp \in R(LT), i \in R(Idx) : Do(LOp("l.remove_child", tp, i, 0, FALSE, <<>>))
+LRenameChild == \E tp \in R(LT), r \in R(RenPairs) : Do(LOp("l.rename_child", tp, r[1], r[2], FALSE, <<>>))
 
-DSetItemA    == \E tp \in DT, key \in Keys, k \in ValKinds : Do(DOp("d.setitem", tp, key, "", FALSE, <<V(k, nxt, "")>>))
-DSetAttrA    == \E tp \in DT, key \in Keys, k \in ValKinds : Do(DOp("d.setattr", tp, key, "", FALSE, <<V(k, nxt, "")>>))
-DDelItemA    == \E tp \in DT, key \in Keys : Do(DOp("d.delitem", tp, key, "", FALSE, <<>>))
-DDelAttrA    == \E tp \in DT, key \in Keys : Do(DOp("d.delattr", tp, key, "", FALSE, <<>>))
-DUpdateA     == \E tp \in DT, u \in DOMAIN UpdShapes :
+DSetItemA    == \E tp \in R(DT), key \in R(Keys), k \in R(ValKinds) : Do(DOp("d.setitem", tp, key, "", FALSE, <<V(k, nxt, "")>>))
+DSetAttrA    == \E tp \in R(DT), key \in R(Keys), k \in R(ValKinds) : Do(DOp("d.setattr", tp, key, "", FALSE, <<V(k, nxt, "")>>))
+DDelItemA    == \E tp \in R(DT), key \in R(Keys) : Do(DOp("d.delitem", tp, key, "", FALSE, <<>>))
+DDelAttrA    == \E tp \in R(DT), key \in R(Keys) : Do(DOp("d.delattr", tp, key, "", FALSE, <<>>))
+DUpdateA     == \E tp \in R(DT), u \in R(DOMAIN UpdShapes) :
                     Do(DOp("d.update", tp, "", "", FALSE,
                            [j \in DOMAIN UpdShapes[u] |-> V(UpdShapes[u][j][2], nxt + j - 1, UpdShapes[u][j][1])]))
-DSetDefaultA == \E tp \in DT, key \in Keys, k \in ValKinds : Do(DOp("d.setdefault", tp, key, "", FALSE, <<V(k, nxt, "")>>))
-DPopA        == \E tp \in DT, key \in Keys, d \in BOOLEAN : (d => "d.pop(d)" \in OpsOn) /\ Do(DOp("d.pop", tp, key, "", d, <<>>))
-DPopitemA    == \E tp \in DT : Do(DOp("d.popitem", tp, "", "", FALSE, <<>>))
-DClearA      == \E tp \in DT : Do(DOp("d.clear", tp, "", "", FALSE, <<>>))
-DSetChild    == \E tp \in DT, key \in Keys, k \in ValKinds : Do(DOp("d.set_child", tp, key, "", FALSE, <<V(k, nxt, "")>>))
-DRemoveChild == \E tp \in DT, key \in Keys : Do(DOp("d.remove_child", tp, key, "", FALSE, <<>>))
-DRenameChild == \E tp \in DT, key \in Keys, k2 \in NewKeys : Do(DOp("d.rename_child", tp, key, k2, FALSE, <<>>))
+DSetDefaultA == \E tp \in R(DT), key \in R(Keys), k \in R(ValKinds) : Do(DOp("d.setdefault", tp, key, "", FALSE, <<V(k, nxt, "")>>))
+DPopA        == \E tp \in R(DT), key \in R(Keys), d \in R(BOOLEAN) : (d => "d.pop(d)" \in OpsOn) /\ Do(DOp("d.pop", tp, key, "", d, <<>>))
+DPopitemA    == \E tp \in R(DT) : Do(DOp("d.popitem", tp, "", "", FALSE, <<>>))
+DClearA      == \E tp \in R(DT) : Do(DOp("d.clear", tp, "", "", FALSE, <<>>))
+DSetChild    == \E tp \in R(DT), key \in R(Keys), k \in R(ValKinds) : Do(DOp("d.set_child", tp, key, "", FALSE, <<V(k, nxt, "")>>))
+DRemoveChild == \E tp \in R(DT), key \in R(Keys) : Do(DOp("d.remove_child", tp, key, "", FALSE, <<>>))
+DRenameChild == \E tp \in R(DT), key \in R(Keys), k2 \in R(NewKeys) : Do(DOp("d.rename_child", tp, key, k2, FALSE, <<>>))
 
 Next == \/ Start
         \/ LSetItem \/ LDelItem \/ LAppendA \/ LInsertA \/ LExtendA \/ LRemoveA \/ LPopA \/ LClearA
